@@ -482,7 +482,7 @@ Lemma stepF_init c m progs cs L tid th t rest sb so a :
   let ts := get_ts (sh_st (cs_sh cs)) (t_id t) in
   let r := reader_of ts in
   let off := if r_tail_bid r =? b_id a then r_tail_off r else 0 in
-  let ts1 := if true && (off =? 0)
+  let ts1 := if true && (off =? 0) && (0 <? b_used a)
              then let '(r', p) := should_persist m r true in
                   let ts' := with_reader ts r' in
                   if p then persist ts' true (b_id a) 0 else ts'
@@ -495,7 +495,7 @@ Proof.
   pose proof (Iwin tid th Hth) as Hwin. unfold winF in Hwin. rewrite Htodo, Hpc in Hwin.
   fold (rawts cs (t_id t)) in ts.
   set (f := fun x : tstate =>
-              if true && (off =? 0)
+              if true && (off =? 0) && (0 <? b_used a)
               then let '(r', p) := should_persist m r true in
                    let ts' := with_reader x r' in
                    if p then persist ts' true (b_id a) 0 else ts'
@@ -506,7 +506,7 @@ Proof.
   assert (Hfacts : TInvP c (nid_of cs) (f (eff cs (t_id t))) /\ stream (f (eff cs (t_id t))) = stream (eff cs (t_id t)) /\
                    unread c (f (eff cs (t_id t))) = unread c (eff cs (t_id t)) /\
                    r_chain (reader_of (f ts)) = r_chain r /\ hyd (f ts) /\ ts_writer (f ts) = ts_writer ts).
-  { unfold f. destruct (true && (off =? 0)).
+  { unfold f. destruct (true && (off =? 0) && (0 <? b_used a)).
     - destruct (should_persist m r true) as [r' p] eqn:Esp. cbn zeta in Hin.
       destruct Hin as (I1 & I2 & I3 & I4 & I5 & I6 & I7 & I8 & I9 & I10).
       pose proof (should_persist_same m r true) as Hs. rewrite Esp in Hs. destruct Hs as (F1 & F2 & F3 & F4 & F5 & F6).
@@ -517,7 +517,7 @@ Proof.
   destruct Hfacts as (Q1 & Q2 & Q3 & G2 & G5 & G6).
   rewrite Hf.
   apply (stepF_R_quiet c progs cs L tid th t rest (PR_t_init a off) f Hinv Hth Htodo).
-  - intros x w. unfold f. destruct (true && (off =? 0)); [|reflexivity].
+  - intros x w. unfold f. destruct (true && (off =? 0) && (0 <? b_used a)); [|reflexivity].
     destruct (should_persist m r true) as [r' p]. destruct p; reflexivity.
   - split; [exact Q1|split; [exact Q2|exact Q3]].
   - exact G5.
